@@ -94,8 +94,11 @@ func c14Alphabet(sys resolve.System, quick bool) *c14Alpha {
 	}
 	nver := len(vers)
 	if quick {
-		vers = []string{vers[0], vers[1], vers[2]}
 		nver = 2
+		if sys == resolve.NPM {
+			// two releases: a requirement then matches both, so the place of the latest-tagged one is observable
+			vers = []string{vers[0], vers[2]}
+		}
 	}
 	for _, p := range []string{"a", "b"} {
 		for i, v := range vers {
@@ -115,11 +118,17 @@ func c14Alphabet(sys resolve.System, quick bool) *c14Alpha {
 	return a
 }
 
-func c14Attr(s string) version.AttrSet {
+// c14Attr builds the attribute set of an operation. The latest tag is written alone for package b and between two
+// other tags for package a, so that both spellings of a tag list occur in every history.
+func c14Attr(s string, vk resolve.VersionKey) version.AttrSet {
 	var as version.AttrSet
 	switch s {
 	case "latest":
-		as.SetAttr(version.Tags, "latest")
+		if strings.HasSuffix(vk.Name, "a") {
+			as.SetAttr(version.Tags, "stable,latest,lts")
+		} else {
+			as.SetAttr(version.Tags, "latest")
+		}
 	case "blocked":
 		as.SetAttr(version.Blocked, "")
 	case "deleted":
@@ -188,7 +197,7 @@ func (a *c14Alpha) run(path []int, check bool) (string, []string) {
 	for _, oi := range path {
 		op := a.ops[oi]
 		vk := a.keys[op.key]
-		lc.AddVersion(resolve.Version{VersionKey: vk, AttrSet: c14Attr(op.attr)}, a.deps(op.req))
+		lc.AddVersion(resolve.Version{VersionKey: vk, AttrSet: c14Attr(op.attr, vk)}, a.deps(op.req))
 		if op.attr != "deleted" {
 			m.entry[vk] = op
 			m.pkgs[vk.Name] = true
@@ -240,7 +249,7 @@ func (a *c14Alpha) run(path []int, check bool) (string, []string) {
 		case added && err != nil:
 			fail("Version(%s@%s) not found after addition: %v", vk.Name, vk.Version, err)
 		case added:
-			if got, want := v.AttrSet.String(), c14Attr(op.attr).String(); got != want {
+			if got, want := v.AttrSet.String(), c14Attr(op.attr, vk).String(); got != want {
 				fail("Version(%s@%s) attributes %s, last addition had %s", vk.Name, vk.Version, got, want)
 			}
 			if v.VersionKey != vk {
